@@ -1,4 +1,6 @@
 """C09 - comments are inert and preserved."""
+import json
+
 import printercheck as PC
 import pprop
 import valgen
@@ -195,6 +197,16 @@ def cases_for(tier):
                     w = r.choice(widths)
                     cases.append(('enum', t, dict(width=w, ribbon_width=r.choice([w, max(1, w // 2)]),
                                                   indent=r.choice([1, 4, 8]))))
+    # a comment on a KEYWORD argument only, in calls short enough to fit the line
+    for node in nodes[:6]:
+        for txt in ('c', 'two words'):
+            w0 = ('commented', node, txt)
+            for t in (('call', 'make', [], [('kw', w0)]), ('call', 'make', [('int', 1)], [('kw', w0)]),
+                      ('call', 'make', [('int', 1)], [('a', ('int', 2)), ('kw', w0), ('z', ('int', 3))]),
+                      ('call', 'make', [], [('kw', w0), ('z', ('int', 3))]),
+                      ('list', [('call', 'make', [('int', 1)], [('a', ('int', 2)), ('kw', w0)])])):
+                for w in (200, 79, 30):
+                    cases.append(('kwcomment', t, dict(width=w, indent=r.choice([1, 4]))))
     # both wrappers on one node, nested comments
     for txt in texts[:6]:
         for node in nodes[:6]:
@@ -270,13 +282,81 @@ RULE = ('comment()/trailing_comment() with 12 adversarial texts (several words, 
         'words of every attached comment a subsequence of the words of the COMMENT tokens. Compared with the model.')
 
 
+LAZY_RULE = (' In fresh interpreters: values of the types whose bundled printer is registered by name (Enum, IntFlag, '
+             'UUID, PurePosixPath, PureWindowsPath, partial, mappingproxy) printed for the first time inside comment() / '
+             'trailing_comment() / two comments, at 5 positions, then bare, then commented again: same syntax tree, '
+             'comment text present, no warning.')
+
+
 def nontrivial(c):
     return len(PC.comments_of(c.text)) > 0
 
 
+LAZY_POSITIONS = ('top', 'list', 'dictvalue', 'trailing', 'double')
+
+
+def lazy_first(pos):
+    """fresh interpreter: first print of each lazily registered type is the commented one"""
+    import os
+    import subprocess
+    import sys
+    from common import VERIF
+    env = dict(os.environ)
+    env['PYTHONPATH'] = os.pathsep.join([os.environ.get('VERIF_REPO', '/repo'), os.path.join(VERIF, 'harness')])
+    p = subprocess.run([sys.executable, os.path.join(VERIF, 'harness', 'lazyfirst.py'), pos], stdout=subprocess.PIPE,
+                       stderr=subprocess.PIPE, text=True, env=env, timeout=600)
+    if p.returncode != 0:
+        raise RuntimeError('lazyfirst worker failed: ' + p.stderr[-500:])
+    return json.loads(p.stdout)
+
+
+def lazy_oracle(pos, rec):
+    import ast
+    name, first, second, again, ws = rec
+    if pos == 'trailing':
+        # the open finding C09-trailing-dropped (reported by the main family): these printers take no trailing comment
+        ws = [w for w in ws if NOSUPPORT not in w]
+    if ws:
+        return 'warning while printing: ' + ws[0]
+    try:
+        want = ast.dump(ast.parse('(' + second + '\n)', mode='eval'))
+    except Exception as e:
+        return 'the uncommented %s does not parse: %s' % (name, e)
+    for label, text in (('first print of the type, commented', first), ('commented again', again)):
+        try:
+            got = ast.dump(ast.parse('(' + text + '\n)', mode='eval'))
+        except Exception as e:
+            return '%s: not a valid expression (%s):\n%s\n--- uncommented ---\n%s' % (label, e, text[:300], second[:300])
+        if got != want:
+            return '%s: another syntax tree than the uncommented value:\n%s\n--- uncommented ---\n%s' % (
+                label, text[:300], second[:300])
+        words = ' '.join(t[1:].strip() for t in PC.comments_of(text))
+        if 'note' not in words and pos != 'trailing':
+            return '%s: the comment text is missing:\n%s' % (label, text[:300])
+    return None
+
+
+def lazy_extra(run, res):
+    n = 0
+    for pos in LAZY_POSITIONS:
+        for rec in lazy_first(pos):
+            n += 1
+            msg = lazy_oracle(pos, rec)
+            if msg and len(run.violations) < 6:
+                run.violation({'kind': 'lazy-type-commented-first', 'position': pos, 'type': rec[0], 'detail': msg})
+    run.count(n)
+    run.coverage['lazily_registered_types_commented_first'] = n
+
+
 def main(tier):
-    return pprop.run_property(PROP, tier, cases_for(tier), oracle, RULE, nontrivial=nontrivial)
+    return pprop.run_property(PROP, tier, cases_for(tier), oracle, RULE + LAZY_RULE, nontrivial=nontrivial, extra=lazy_extra)
 
 
 def replay(path):
+    with open(path) as f:
+        p = json.load(f)
+    if p.get('kind') == 'lazy-type-commented-first':
+        bad = [lazy_oracle(p['position'], rec) for rec in lazy_first(p['position']) if rec[0] == p['type']]
+        print('oracle:', bad)
+        return 1 if any(bad) else 0
     return pprop.replay_property(path, oracle)
